@@ -144,6 +144,12 @@ def c06c(ck, prog):
     # offset that keeps at least (terminator length - 1) of the bytes searched before
     for w in [c for c in f.calls() if c.name in ("windows",) and len(c.args) > 1]:
         k = guards.const_int(f.origin(w.args[1])[-1][1]) if f.origin(w.args[1]) and f.origin(w.args[1])[-1][0] == "const" else None
+        if k is None:
+            ko = f.origin(w.args[1])
+            if ko and ko[-1][0] == "call" and ko[-1][1].name == "len" and ko[-1][1].args:
+                ka = f.origin(ko[-1][1].args[0])
+                if ka and ka[-1][0] == "const" and (ka[-1][1].get("b") or ka[-1][1].get("s")):
+                    k = len(ka[-1][1].get("b") or ka[-1][1].get("s"))
         st = f.origin(w.args[0])
         ix = st[-1][1] if st and st[-1][0] == "call" else None
         if ix is None or ix.name not in ("index", "get_unchecked") or len(ix.args) < 2 or "__buf__" not in decision.describe_deep(f, ix.args[0], 4):
